@@ -825,5 +825,54 @@ func c03Wide(args []string) error {
 		}
 		out.put(res)
 	}
+	// one operand is a literal: negative constants, constants with the top bit of the type set, powers of two
+	// (strength reduction, constant typing), on 32..130-bit types; the relation is the same as for two variables
+	lwidths := []int{32, 33, 63, 64, 65, 128, 130}
+	for i := 0; i < n/3+8; i++ {
+		w := lwidths[i%len(lwidths)]
+		signed := (i/len(lwidths))%2 == 0
+		T := typeName(signed, w)
+		opn, sym := [][2]string{{"mul", "*"}, {"mul", "*"}, {"add", "+"}, {"sub", "-"}, {"band", "&"}}[(i/2)%5][0], [][2]string{{"mul", "*"}, {"mul", "*"}, {"add", "+"}, {"sub", "-"}, {"band", "&"}}[(i/2)%5][1]
+		var k *big.Int
+		var lit string
+		top := new(big.Int).Lsh(big.NewInt(1), uint(w-1))
+		if signed {
+			k = []*big.Int{big.NewInt(-3), big.NewInt(-1), big.NewInt(-8), big.NewInt(5), big.NewInt(16), big.NewInt(-1000003)}[rng.Intn(6)]
+			lit = k.String()
+		} else {
+			k = []*big.Int{top, new(big.Int).Add(top, big.NewInt(5)), new(big.Int).Sub(new(big.Int).Lsh(top, 1), big.NewInt(1)), big.NewInt(3), big.NewInt(8), new(big.Int).Rsh(top, 1)}[rng.Intn(6)]
+			lit = "0x" + k.Text(16)
+		}
+		src := fmt.Sprintf("package main\n\nfunc main(a, b %s) %s {\n\treturn a %s %s\n}\n", T, T, sym, lit)
+		res := &Result{Case: n + i, Nontrivial: true, Class: "wide-literal:" + opn}
+		c, err := compileMPCL(src, nil)
+		if err != nil {
+			res.Class = "rejected"
+			res.Sample = map[string]string{"src": src, "error": err.Error()}
+			out.put(res)
+			continue
+		}
+		y := new(big.Int).And(k, new(big.Int).Sub(new(big.Int).Lsh(big.NewInt(1), uint(w)), big.NewInt(1))) // two's complement at the type's width
+		for j := 0; j < 6; j++ {
+			x := boundaryOperand(rng, w)
+			got, err := c.Compute([]*big.Int{x, big.NewInt(0)})
+			if err != nil {
+				res.viol("compute-error", "%v", err)
+				break
+			}
+			// class of the literal: negative in a signed type wider than / exactly 32 bits, top bit of an unsigned type, small
+			lc := "small"
+			if k.Sign() < 0 && w > 32 {
+				lc = "neg>32"
+			} else if k.Sign() < 0 {
+				lc = "neg=32"
+			} else if k.BitLen() == w {
+				lc = "top"
+			}
+			tr.put(map[string]interface{}{"ev": "op", "op": opn, "target": "mpcl-literal", "lit": lc, "wx": w, "wy": w, "wz": w,
+				"x": limbs(x, w), "y": limbs(y, w), "z": limbs(got[0], w), "r": []int{0}})
+		}
+		out.put(res)
+	}
 	return nil
 }
